@@ -106,9 +106,10 @@ Inductive case :=
    two known payload differences (File over-read, Image description) — everything must then hold in full *)
 | CHist (modulo : bool) (ops : list op) (oks : list bool)
         (before arts_before file1 : jval) (save_digests : list N) (reload_ok : bool)
-        (after arts_after file2 : jval) (digest2 digest_app : N)
+        (after arts_after file2 : option jval)      (* None: rendered identically to before / arts_before / file1 *)
+        (digest2 digest_app : N)
 (* a shipped graph file: load -> save S1 -> load -> save S2 *)
-| CFile (file1 file2 arts1 arts2 : jval) (digest1 digest2 : N).
+| CFile (file1 : jval) (file2 : option jval) (arts1 : jval) (arts2 : option jval) (digest1 digest2 : N).
 
 (* ---- dependency order of a generic file tree: every node's dependency names are in the model's order ---- *)
 Definition jstr_of (v : jval) : string := match v with JStr s => s | _ => "" end.
@@ -122,6 +123,8 @@ Definition node_deps_sorted (n : jval) : bool :=
 Definition file_deps_sorted (f : jval) : bool :=
   match f with JArr (JArr ns :: _) => forallb node_deps_sorted ns | _ => false end.
 
+Definition orelse (o : option jval) (d : jval) : jval := match o with Some x => x | None => d end.
+
 (* model vs implementation *)
 Definition corr_ok (c : case) : bool :=
   match c with
@@ -131,10 +134,10 @@ Definition corr_ok (c : case) : bool :=
       list_eqb Bool.eqb moks oks
       && jval_eqb (jinst the_table s) before
       && jval_eqb (jschema (encode the_table s)) file1
-      && (if modulo then jval_eqb (jinst the_table s) after
+      && (if modulo then jval_eqb (jinst the_table s) (orelse after before)
           else match decode the_table (encode the_table s) with
-               | Some s' => reload_ok && jval_eqb (jinst the_table s') after
-                            && jval_eqb (jschema (encode the_table s')) file2
+               | Some s' => reload_ok && jval_eqb (jinst the_table s') (orelse after before)
+                            && jval_eqb (jschema (encode the_table s')) (orelse file2 file1)
                | None => negb reload_ok
                end)
   | CFile f1 _ _ _ _ _ => file_deps_sorted f1
@@ -146,10 +149,10 @@ Definition prop_ok (c : case) : bool :=
   | CTable _ => true
   | CHist _ _ _ before arts_before file1 digs reload_ok after arts_after file2 dig2 dig_app =>
       reload_ok
-      && jval_eqb before after                 (* same nodes, wiring incl. array order, parameter records, producers, metadata *)
-      && jval_eqb arts_before arts_after       (* same artifact content *)
-      && jval_eqb file1 file2                  (* same saved structure *)
+      && jval_eqb before (orelse after before)                  (* same nodes, wiring incl. array order, parameter records, producers, metadata *)
+      && jval_eqb arts_before (orelse arts_after arts_before)   (* same artifact content *)
+      && jval_eqb file1 (orelse file2 file1)                    (* same saved structure *)
       && all_eqN (digs ++ [dig2; dig_app])     (* the same instance saved repeatedly, the reloaded instance and the reloaded App: same bytes *)
   | CFile f1 f2 a1 a2 d1 d2 =>
-      jval_eqb f1 f2 && jval_eqb a1 a2 && N.eqb d1 d2
+      jval_eqb f1 (orelse f2 f1) && jval_eqb a1 (orelse a2 a1) && N.eqb d1 d2
   end.
